@@ -212,6 +212,14 @@ def Commissioning(available_addresses=None, readdress=False,
             if low == "clash":
                 yield progress(message="Multiple ballasts picked the same "
                                "random address; restarting")
+                if not dry_run:
+                    # Control gear that has already been given its
+                    # address is withdrawn but would still act on
+                    # Randomise and ProgramShortAddress; restart
+                    # initialisation for the remaining unaddressed
+                    # gear only
+                    yield Terminate()
+                    yield Initialise(broadcast=False, address=None)
                 break
             if low is None:
                 finished = True
